@@ -32,8 +32,15 @@ pub fn gen_case(rng: &mut Rng, idx: usize, thorough: bool) -> Value {
         }
         return json!({"rx": rx_to_json(&r), "grammar": {"regex": r.to_regex()}, "texts": texts, "seed": rng.next() % 1_000_000_000, "steps": steps});
     }
+    if idx % 6 == 2 {
+        // grammars on which the default token slices apply (wide text lexemes, JSON strings), with the slices enabled
+        let fams = eng::families();
+        let n = fams.len();
+        let (g, t) = &fams[[n - 4, n - 3, n - 2, n - 1][(idx / 6) % 4]];
+        return json!({"grammar": g.to_json(), "texts": t.iter().map(|t| crate::vocab::hex(t.as_bytes())).collect::<Vec<_>>(), "slices": true, "seed": rng.next() % 1_000_000_000, "steps": steps});
+    }
     let (g, texts) = eng::gen_grammar(rng, idx);
-    json!({"grammar": g.to_json(), "texts": texts.iter().map(|t| crate::vocab::hex(t)).collect::<Vec<_>>(), "seed": rng.next() % 1_000_000_000, "steps": steps})
+    json!({"grammar": g.to_json(), "texts": texts.iter().map(|t| crate::vocab::hex(t)).collect::<Vec<_>>(), "slices": (idx / 3) % 2 == 1, "seed": rng.next() % 1_000_000_000, "steps": steps})
 }
 
 pub fn run_case(_ctx: &Ctx, case: &Value, tag: usize, rep: &mut Report, mb: &mut ModelBatch) {
@@ -45,7 +52,10 @@ pub fn run_case(_ctx: &Ctx, case: &Value, tag: usize, rep: &mut Report, mb: &mut
     let (wc_words, wc_eos) = vocab::synth_words(&mut rng, &texts, 35, None);
     let sb = vocab::single_byte_words();
     let sb_eos = sb.len() as u32 - 1;
-    let (Ok(wa), Ok(wb), Ok(wc)) = (World::new(wa_words, wa_eos, false, None), World::new(sb, sb_eos, false, None), World::new(wc_words, wc_eos, false, None)) else { rep.skip("world"); return; };
+    // half of the cases with the default token slices: the slicer's shortcuts must not depend on the vocabulary either
+    let sl = llguidance::earley::SlicedBiasComputer::general_slices();
+    let slices = if case["slices"].as_bool().unwrap_or(false) { Some(&sl[..]) } else { None };
+    let (Ok(wa), Ok(wb), Ok(wc)) = (World::new(wa_words, wa_eos, false, slices), World::new(sb, sb_eos, false, slices), World::new(wc_words, wc_eos, false, slices)) else { rep.skip("world"); return; };
     let mut a = wa.matcher(&g);
     let mut b = wb.matcher(&g);
     let mut c = wc.matcher(&g);
